@@ -21,7 +21,7 @@ var hsFuncs = []string{
 	"writePQServerResponseHidden", "readPQServerResponseHidden",
 	"deriveFinalKeys", "decryptCookie", "writeCookie",
 	"beginPQDiscoverableHandshake", "beginPQHiddenHandshake", "handlePQClientHello", "handlePQClientRequestHidden",
-	"finishHandshake", "clientHandshakeLocked", "CookieAD",
+	"finishHandshake", "clientHandshakeLocked", "CookieAD", "readPacketLocked", "DecryptCertificates", "readVector",
 }
 
 // cases of the message-type switch in Server.readPacket
@@ -56,6 +56,50 @@ func leaves(b *ast.BlockStmt) bool {
 		return !found
 	})
 	return found
+}
+
+// reslicedVars lists variables that a statement list advances with `v = v[k:]`.
+func reslicedVars(list []ast.Stmt) []string {
+	seen := map[string]bool{}
+	var out []string
+	for _, st := range list {
+		as, ok := st.(*ast.AssignStmt)
+		if !ok || len(as.Lhs) != 1 || len(as.Rhs) != 1 {
+			continue
+		}
+		id, ok := as.Lhs[0].(*ast.Ident)
+		if !ok {
+			continue
+		}
+		if se, ok := as.Rhs[0].(*ast.SliceExpr); ok {
+			if x, ok := se.X.(*ast.Ident); ok && x.Name == id.Name && !seen[id.Name] {
+				seen[id.Name] = true
+				out = append(out, id.Name)
+			}
+		}
+	}
+	return out
+}
+
+// resetFirst: the first assignment to v in the list does not mention v on its right-hand side.
+func resetFirst(list []ast.Stmt, v string) bool {
+	for _, st := range list {
+		as, ok := st.(*ast.AssignStmt)
+		if !ok || len(as.Lhs) != 1 || len(as.Rhs) != 1 {
+			continue
+		}
+		if id, ok := as.Lhs[0].(*ast.Ident); ok && id.Name == v {
+			mentions := false
+			ast.Inspect(as.Rhs[0], func(n ast.Node) bool {
+				if x, ok := n.(*ast.Ident); ok && x.Name == v {
+					mentions = true
+				}
+				return !mentions
+			})
+			return !mentions
+		}
+	}
+	return false
 }
 
 func callOf(e ast.Expr) (*ast.CallExpr, string) {
@@ -190,6 +234,8 @@ func (p *progBuilder) call(c *ast.CallExpr, fn string, list []ast.Stmt, i int) {
 		p.emit(".verifyCerts %s", b2l(errChecked(list, i)))
 	case strings.HasSuffix(fn, "RekeyFromSqueeze"):
 		p.emit(".rekey")
+	case fn == "make" && len(c.Args) >= 2:
+		p.emit(".compute %s true", q("make("+arg(1)+")"))
 	case fn == "h.Write":
 		// hash input of CookieAD
 		p.emit(".absorb %s", q("hash:"+arg(0)))
@@ -283,6 +329,8 @@ func (p *progBuilder) walk(list []ast.Stmt) {
 					}
 					p.emit(".lenGuard %s %d %d", q(strings.TrimSpace(cond[strings.Index(cond, "<")+1:])), a, b)
 				}
+			case strings.Contains(cond, "PlaintextLen(len(msg)) <"):
+				p.emit(".constCheck %s %s", q(cond), b2l(leaves(s.Body)))
 			case strings.Contains(cond, "timeBytes"):
 				p.emit(".timeCheck %s", b2l(leaves(s.Body)))
 			case cond == "!s.config.IsHidden":
@@ -320,6 +368,12 @@ func (p *progBuilder) walk(list []ast.Stmt) {
 		case *ast.ForStmt:
 			p.walk(s.Body.List)
 		case *ast.RangeStmt:
+			// a per-item loop that consumes a working slice must start every iteration from the
+			// whole buffer: is the first assignment to a variable that the body re-slices
+			// (`v = v[k:]`) one that does not depend on v's previous value?
+			for _, v := range reslicedVars(s.Body.List) {
+				p.emit(".compute %s %s", q("loop: "+v+" reset per iteration"), b2l(resetFirst(s.Body.List, v)))
+			}
 			p.walk(s.Body.List)
 		case *ast.BlockStmt:
 			p.walk(s.List)
@@ -349,6 +403,15 @@ func structural(l *loader, facts map[string]any, out string) {
 					progs[want] = p.ops
 				}
 			}
+			if fd.Name.Name == "handleSessionMessage" && fd.Recv != nil {
+				p := &progBuilder{info: l.infos["transport"]}
+				p.walk(fd.Body.List)
+				recv := "Server"
+				if strings.Contains(exprStr(fd.Recv.List[0].Type), "Client") {
+					recv = "Client"
+				}
+				progs["handleSessionMessage_"+recv] = p.ops
+			}
 			if fd.Name.Name == "readPacket" && fd.Recv != nil {
 				p := &progBuilder{info: l.infos["transport"]}
 				p.walk(fd.Body.List)
@@ -363,7 +426,7 @@ func structural(l *loader, facts map[string]any, out string) {
 	b.WriteString("/- GENERATED by harness/extract from /repo's current source on every run. Do not edit. -/\n")
 	b.WriteString("import HopModel.Base.HOp\nnamespace Generated\nopen HOp\n\n")
 	names := append([]string(nil), hsFuncs...)
-	names = append(names, "readPacket")
+	names = append(names, "readPacket", "handleSessionMessage_Server", "handleSessionMessage_Client")
 	for _, c := range dispatchCases {
 		names = append(names, "readPacket_"+c)
 	}
